@@ -576,6 +576,32 @@ pub fn c20_case(fam: &str, idx: usize, seed: u64) -> Option<Case> {
     let case = format!("C20:{}:{}:{}", fam, idx, seed);
     let mut rng = Rng::derive(seed, 2001, idx as u64);
     match fam {
+        "cancel" => {
+            // a user cancel in the middle of the first pass, then figures reported by the cancelled sender:
+            // Resumed (suspend/resume after the cancel) and Abandon (the EOF(cancel) is never acknowledged)
+            let mut k = rand_knobs(&mut rng, true);
+            k.seg = *rng.pick(&[16u16, 32, 64]);
+            k.limit = *rng.pick(&[1u32, 2]);
+            k.ta = 2;
+            let seg = k.seg as usize;
+            let nseg = 4 + rng.usize(12);
+            let size = nseg * seg - rng.usize(seg);
+            let cl = rng.below(5);
+            let c = content(&mut rng, size, cl, seg, 0xC20);
+            let mut sc = two_party(&case, rng.next_u64(), &k, c);
+            let at = 1 + rng.usize(nseg - 1);
+            sc.scripts.push(Script { trig: Trigger::AfterEmit(0, at), delay_ms: 0, act: Act::Prim(0, PrimKind::Cancel, 0) });
+            if rng.bool() {
+                sc.scripts.push(Script { trig: Trigger::AfterEmit(0, at), delay_ms: 2 + rng.below(3), act: Act::Prim(0, PrimKind::Suspend, 0) });
+                sc.scripts.push(Script { trig: Trigger::AfterInd(0, IndKind::Suspended, 0), delay_ms: 1 + rng.below(500), act: Act::Prim(0, PrimKind::Resume, 0) });
+            }
+            // nothing comes back: the cancelled sender ends by its ACK limit
+            sc.rules.push(Rule { from: 1, to: 0, m: Matcher::FromIdx(0), a: Action::Drop });
+            sc.paced = true;
+            sc.tx_ms = 1;
+            let desc = format!("{} size={} [cancel] user cancel at the sender after emission #{} of {} then suspend/resume and abandon; scripts={:?}", k.describe(), size, at, nseg + 2, sc.scripts.iter().map(|s| format!("{:?}+{}ms:{:?}", s.trig, s.delay_ms, s.act)).collect::<Vec<_>>());
+            Some(Case::from(sc, &k, desc, false))
+        }
         "prompt" | "susp" | "fault" => {
             let mut k = rand_knobs(&mut rng, true);
             k.seg = *rng.pick(&[16u16, 32, 64, 100]);
@@ -781,10 +807,10 @@ pub fn run_c20(tier: &str, seed: u64, replay: Option<&str>) -> (Meta, Report) {
     let meta = Meta {
         property: "C20",
         level: "exploration",
-        rule: "seeded scenarios in three families, all paced, acknowledged mode, random knobs / sizes around segment boundaries / up to 2 random faults (loss, duplication, delay => retransmissions and duplicates): prompt = 1-4 Prompt(KeepAlive) requests at random emission/arrival indices; susp = Suspend+Resume at a random index at either entity (Resumed indication carries progress) plus optional prompt; fault = link cut at a random index with small limits and random fault handlers (Fault / Abandon indications carry progress). distinct_nontrivial = distinct (config, size, event-order) signatures among runs in which at least one progress figure was reported and checked.".into(),
+        rule: "seeded scenarios in three families, all paced, acknowledged mode, random knobs / sizes around segment boundaries / up to 2 random faults (loss, duplication, delay => retransmissions and duplicates): prompt = 1-4 Prompt(KeepAlive) requests at random emission/arrival indices; susp = Suspend+Resume at a random index at either entity (Resumed indication carries progress) plus optional prompt; fault = link cut at a random index with small limits and random fault handlers (Fault / Abandon indications carry progress); cancel = user cancel at the sender in the middle of the first pass with the reverse link dark, optionally followed by suspend/resume (Resumed and Abandon figures of a sender that has not transmitted the whole file). distinct_nontrivial = distinct (config, size, event-order) signatures among runs in which at least one progress figure was reported and checked.".into(),
         exhaustive: false,
         assumptions: vec!["receiver figure must equal the number of distinct file bytes delivered at one of the points of the same virtual instant; sender figure must be a tile boundary between the highest offset handed to the link at earlier instants and the highest offset logged before the indication plus two tiles already read".into()],
-        require: vec![("c20_receiver_figures:KeepAlive".into(), 300), ("c20_receiver_figures:Fault".into(), 100), ("c20_receiver_figures:Resumed".into(), 100), ("c20_sender_figures:Fault".into(), 100), ("c20_sender_figures:Resumed".into(), 100)],
+        require: vec![("c20_receiver_figures:KeepAlive".into(), 300), ("c20_receiver_figures:Fault".into(), 100), ("c20_receiver_figures:Resumed".into(), 100), ("c20_sender_figures:Fault".into(), 100), ("c20_sender_figures:Resumed".into(), 100), ("c20_sender_figures:Abandon".into(), 100)],
         extra: vec![],
     };
     if let Some(r) = replay {
@@ -793,7 +819,7 @@ pub fn run_c20(tier: &str, seed: u64, replay: Option<&str>) -> (Meta, Report) {
     }
     let n = if thorough { 400_000 } else { 3_000 };
     let mut rep = Report::new();
-    for fam in ["prompt", "susp", "fault"] {
+    for fam in ["prompt", "susp", "fault", "cancel"] {
         rep.merge(run_cases(n, "c20", move |i| c20_case(fam, i, seed), judge_c20));
         rep.add(&format!("cases:{}", fam), n as u64);
     }
